@@ -27,20 +27,71 @@ SI = {"n": sp.Rational(1, 10 ** 9), "u": sp.Rational(1, 10 ** 6), "m": sp.Ration
       "c": sp.Rational(1, 100), "k": sp.Integer(1000), "": sp.Integer(1)}
 
 
+def _callee_key(fn):
+    from ptstat.symval import BoundMethod, Closure
+    if isinstance(fn, BoundMethod):
+        return (getattr(fn.fn, "qual", repr(fn.fn)), id(fn.selfval))
+    return (getattr(fn, "qual", repr(fn)), None)
+
+
+def _pair_calls(I, thunk):
+    """the calls made while *thunk* runs whose only argument is a sequence of (formula, quantity) pairs"""
+    from ptstat.symval import BoundMethod, Closure, GenVal
+
+    def is_formula(v):
+        return isinstance(v, SymObj) and v.cls is not None and any(k.name == "Formula" for k in [v.cls] + list(v.cls.bases))
+
+    def is_pairs(v):
+        items = v.items[v.pos:] if isinstance(v, GenVal) else v
+        return isinstance(items, (list, tuple)) and len(items) >= 2 and \
+            all(isinstance(p_, tuple) and len(p_) == 2 and is_formula(p_[0]) for p_ in items)
+    I.call_log = []
+    try:
+        try:
+            thunk()
+        except (SymRaise, AnalysisError):
+            pass
+        log = I.call_log
+    finally:
+        I.call_log = None
+    out = []
+    for fn, args, kwargs in log:
+        if isinstance(fn, Closure) and fn.cls is not None and args and not is_pairs(args[0]) and len(args) == 2:
+            continue                 # the unbound form of a method call already logged in its bound form
+        if len(args) == 1 and not kwargs and is_pairs(args[0]):
+            out.append(fn)
+    return out
+
+
 def mix_helper(ctx, I, w, mode):
     """(qualified name, callable) of the private function that both mix_by_<mode>() and the '<mode>%' parse action hand their
-    (formula, quantity) pairs to - found through the call graph, not by its name"""
-    cg = ctx.src.callgraph()
-    a = ctx.src.func(f"formulas.mix_by_{mode}").qual
-    b = _action_qual(action(I, w, f"convert_by_{mode}"))
-    import networkx as nx
-    da = nx.descendants(cg, a) if a in cg else set()
-    direct_b = set(cg.successors(b)) if b in cg else set()
-    cand = sorted(q_ for q_ in direct_b & da if len(ctx.src.func(q_).node.args.args) == 1 and q_.count(".") == 1)
-    if len(cand) != 1:
-        raise AnalysisError(f"expected one pair-mixing helper shared by mix_by_{mode} and its parse action, found {cand}")
-    q_ = cand[0]
-    return q_, I.global_name(*q_.split(".", 1))
+    (formula, quantity) pairs to - found by what it is handed when both run (plain function, alias, classmethod of a strategy
+    class ...), not by its name or by a call edge in the text"""
+    fm = I.global_name("formulas", "formula")
+    A = w.atoms
+    mk = lambda: (I.call(fm, [{A["element"]: sp.Integer(1)}], {"density": sp.Integer(5)}),
+                  I.call(fm, [{A["element2"]: sp.Integer(1)}], {"density": sp.Integer(3)}))
+    f1, f2 = mk()
+    fn = I.global_name("formulas", f"mix_by_{mode}")
+    a = _pair_calls(I, lambda: I.call(fn, [f1, sp.Integer(2), f2, sp.Integer(3)], {}))
+    g1, g2 = mk()
+    unit_ = {"weight": "wt%", "volume": "vol%"}[mode]
+    act = action(I, w, f"convert_by_{mode}")
+    b = _pair_calls(I, lambda: I.call(act, ["<s>", 0, action_tokens(I, w, f"convert_by_{mode}", f"7{unit_} Fe // O2", {}, [g1, g2])], {}))
+    keys_b = {_callee_key(f_) for f_ in b}
+    cand = []
+    for f_ in a:
+        if _callee_key(f_) in keys_b and _callee_key(f_) not in {_callee_key(c_) for c_ in cand}:
+            cand.append(f_)
+    if not cand:
+        raise AnalysisError(f"expected one pair-mixing helper shared by mix_by_{mode} and its parse action, found "
+                            f"{[_callee_key(f_)[0] for f_ in a]} / {[_callee_key(f_)[0] for f_ in b]}")
+    helper = cand[0]                  # the outermost common callee
+    return _callee_key(helper)[0], helper
+
+
+def _reaches(I, thunk, helper):
+    return any(_callee_key(f_) == _callee_key(helper) for f_ in _pair_calls(I, thunk))
 
 
 def run(ctx):
@@ -165,18 +216,18 @@ def _run(ctx):
     ctx.floor("R1", 40)
 
     # ---- R2 call forms and string forms reach the same helpers ---------------------
-    cg = ctx.src.callgraph()
     aq = lambda role: _action_qual(action(I, w, role))
-    for caller, callee in (("formulas.mix_by_weight", HELPER["weight"][0]),
-                           ("formulas.mix_by_volume", HELPER["volume"][0]),
-                           (aq("convert_by_weight"), HELPER["weight"][0]),
-                           (aq("convert_by_volume"), HELPER["volume"][0]),
-                           (aq("convert_by_layer"), HELPER["volume"][0]),
-                           (aq("convert_by_absmass"), HELPER["weight"][0])):
-        import networkx as nx
-        caller, callee = ctx.src.func(caller).qual, ctx.src.func(callee).qual      # (a moved and re-exported helper keeps its role)
-        ctx.check(caller in cg and callee in cg and nx.has_path(cg, caller, callee), "R2", f"{caller.split('.')[-1]} -> {callee.split('.')[-1]}",
-                  f"{caller} no longer delegates to {callee}", fsite(ctx, caller))
+    f1, f2, f3 = comps()
+    runs = (("mix_by_weight", "weight", lambda: I.call(I.global_name("formulas", "mix_by_weight"), [f1, q[0], f2, q[1]], {})),
+            ("mix_by_volume", "volume", lambda: I.call(I.global_name("formulas", "mix_by_volume"), [f1, q[0], f2, q[1]], {})),
+            ("convert_by_weight", "weight", lambda: I.call(action(I, w, "convert_by_weight"), ["<s>", 0, action_tokens(I, w, "convert_by_weight", "7wt% Fe // O2", {}, [f1, f2])], {})),
+            ("convert_by_volume", "volume", lambda: I.call(action(I, w, "convert_by_volume"), ["<s>", 0, action_tokens(I, w, "convert_by_volume", "7vol% Fe // O2", {}, [f1, f2])], {})),
+            ("convert_by_layer", "volume", lambda: I.call(action(I, w, "convert_by_layer"), ["<s>", 0, action_tokens(I, w, "convert_by_layer", "7 nm Fe // 11 nm O2", {}, [f1, f2])], {})),
+            ("convert_by_absmass", "weight", lambda: I.call(action(I, w, "convert_by_absmass"), ["<s>", 0, action_tokens(I, w, "convert_by_absmass", "7 g Fe // 11 g O2", {}, [f1, f2])], {})))
+    for caller, mode_, thunk in runs:
+        cq = f"formulas.{caller}" if caller.startswith("mix_") else aq(caller)
+        ctx.check(_reaches(I, thunk, HELPER[mode_][1]), "R2", f"{caller} -> {HELPER[mode_][0].split('.')[-1]}",
+                  f"{cq} no longer hands its (formula, quantity) pairs to {HELPER[mode_][0]}", fsite(ctx, cq))
     # the call forms: argument handling
     for mode in ("weight", "volume"):
         fn = I.global_name("formulas", f"mix_by_{mode}")
